@@ -20,8 +20,11 @@
 package main
 
 import (
+	"encoding/json"
 	"fmt"
+	"io/ioutil"
 	"os"
+	"os/exec"
 	"path/filepath"
 	"runtime"
 	"runtime/debug"
@@ -547,6 +550,9 @@ func main() {
 	os.MkdirAll(d.work, 0755)
 
 	if run.ReplayPath != "" {
+		if replaySched(run) {
+			return
+		}
 		var k caseT
 		if err := run.ReplayCase(&k); err != nil {
 			core.Fatal("cannot load replay: %v", err)
@@ -828,34 +834,154 @@ func main() {
 			nChains6++
 		}
 	}
-	run.Finish(core.Coverage{
+	finalCov := core.Coverage{
 		"states":                        d.states.Len(),
 		"transitions":                   int(blockExec) + int(d.restarts),
 		"traces_validated_against_impl": runs,
 		"evaluations":                   int(d.evals),
 		"distinct_nontrivial":           d.records.Len(),
-		"rule": "for each fixed chain: the reference replica (one lifetime, 1 worker) builds the blocks; then EVERY partition of the chain into process lifetimes (2^(n-1): Stop()+NewEVMApp+Start on the same directory after the chosen blocks) × EVERY worker count in the list is run on a fresh directory and fed exactly those blocks, plus default-worker-count catch-up replicas (one lifetime / restart after every block) and repeated identical configurations; every run ends with one more restart after which the query list is read again. Compared per block and per component (app-hash, receipts-hash, execute-result, 7 query classes): same partition vs 1 worker; same workers vs unpartitioned run (receipts-hash: vs the smallest partition whose executing lifetime had applied the same earlier KV transactions, that one vs the unpartitioned run); repeated runs; after-restart answers vs before-restart answers. states = distinct (chain, height, first block of the executing lifetime, workers); distinct_nontrivial = distinct (chain, height, full record) values observed",
-		"exhaustive":               !incomplete,
-		"chains":                   len(chains),
-		"chains_skipped_by_time_cap": skippedChains,
-		"time_cap_s":               capS,
-		"chains_of_6_blocks":       nChains6,
-		"runs":                     runs,
-		"blocks_executed":          int(blockExec),
-		"restarts":                 int(d.restarts),
-		"application_opens":        int(openCount),
-		"queries_evaluated":        int(queryExec),
-		"bounds":                   map[string]interface{}{"blocks_per_chain": "2 (K2), 6 (A B C D E), 3 (ord-*)", "partitions": "all 2^(n-1)", "workers": wl, "default_workers": defaultW},
-		"outcome_classes":          d.classes.Map(),
-		"tx_outcome_classes":       txClasses.Map(),
-		"chain_summaries":          chainSummary,
-		"samples":                  d.samples.List(),
-		"same_config_divergence":   "reported as a violation (kind *-not-reproducible), not as an internal error: for C05 a divergence of two identical runs IS the property failing",
-	}, []string{
+		"rule":                          "for each fixed chain: the reference replica (one lifetime, 1 worker) builds the blocks; then EVERY partition of the chain into process lifetimes (2^(n-1): Stop()+NewEVMApp+Start on the same directory after the chosen blocks) × EVERY worker count in the list is run on a fresh directory and fed exactly those blocks, plus default-worker-count catch-up replicas (one lifetime / restart after every block) and repeated identical configurations; every run ends with one more restart after which the query list is read again. Compared per block and per component (app-hash, receipts-hash, execute-result, 7 query classes): same partition vs 1 worker; same workers vs unpartitioned run (receipts-hash: vs the smallest partition whose executing lifetime had applied the same earlier KV transactions, that one vs the unpartitioned run); repeated runs; after-restart answers vs before-restart answers. states = distinct (chain, height, first block of the executing lifetime, workers); distinct_nontrivial = distinct (chain, height, full record) values observed",
+		"exhaustive":                    !incomplete,
+		"chains":                        len(chains),
+		"chains_skipped_by_time_cap":    skippedChains,
+		"time_cap_s":                    capS,
+		"chains_of_6_blocks":            nChains6,
+		"runs":                          runs,
+		"blocks_executed":               int(blockExec),
+		"restarts":                      int(d.restarts),
+		"application_opens":             int(openCount),
+		"queries_evaluated":             int(queryExec),
+		"bounds":                        map[string]interface{}{"blocks_per_chain": "2 (K2), 6 (A B C D E), 3 (ord-*)", "partitions": "all 2^(n-1)", "workers": wl, "default_workers": defaultW},
+		"outcome_classes":               d.classes.Map(),
+		"tx_outcome_classes":            txClasses.Map(),
+		"chain_summaries":               chainSummary,
+		"samples":                       d.samples.List(),
+		"same_config_divergence":        "reported as a violation (kind *-not-reproducible), not as an internal error: for C05 a divergence of two identical runs IS the property failing",
+	}
+	runSchedPart(run, finalCov)
+	run.Finish(finalCov, []string{
 		"harness genesis: the repository's core.DefaultGenesis() plus balances for two accounts (evmkit Options.Alloc) so that value transfers can succeed; no account is funded on the real chain",
 		"the harness plays gemmill/state/execution.go: OnExecute(h,0,block) then OnCommit(h,0,block); header time is evmkit.BlockTime(h); 'accepts the next block' is decided by the repository's Block.ValidateBasic with the replica's own commit results as state.AppHash/state.ReceiptsHash",
 		"a restart is Stop() + NewEVMApp + Start on the same directory between two blocks (never between OnExecute and OnCommit: that is C06)",
-		"goroutine schedules of the parallel signature verifier are whatever the Go runtime produces (not enumerated; SCHED part pending); Result.Log and ExecuteInvalidTx.Error texts are not compared",
+		"part (a) leaves goroutine schedules of the parallel signature verifier to the Go runtime; part (b) (coverage.sched) enumerates them under the controlled scheduler on 3-transaction blocks; Result.Log and ExecuteInvalidTx.Error texts are not compared",
 		"the model is the implementation itself: every run executes the real EVMApp (traces_validated_against_impl = runs)",
 	})
 }
+
+// runSchedPart runs part (b), the controlled-scheduler exploration of
+// verifycpuparallel.go (props/c05sched, a separate binary because it is built
+// with the import-rewriting overlay), in a private root and merges its evidence
+// and violations into this run.
+func runSchedPart(run *core.Run, cov core.Coverage) {
+	bin := filepath.Join(core.Root, ".work", "c05sched", "bin-for-c05")
+	if alt := os.Getenv("VERIF_C05SCHED_BIN"); alt != "" {
+		bin = alt
+	}
+	if _, err := os.Stat(bin); err != nil {
+		// VERIF_ROOT may point at a private root (seeded-change runs): the binary lives under the real tree
+		bin = "/verif/.work/c05sched/bin-for-c05"
+	}
+	sub := filepath.Join(run.WorkDir(), "schedroot")
+	os.RemoveAll(sub)
+	os.MkdirAll(sub, 0755)
+	if b, err := ioutil.ReadFile(filepath.Join(core.Root, "known_findings.txt")); err == nil {
+		ioutil.WriteFile(filepath.Join(sub, "known_findings.txt"), b, 0644)
+	}
+	cmd := exec.Command(bin, run.Tier)
+	cmd.Env = append(os.Environ(), "VERIF_ROOT="+sub, "VERIF_TIER="+run.Tier, "C05B_RACE_BIN="+filepath.Join(filepath.Dir(bin), "c05race"))
+	out, err := cmd.CombinedOutput()
+	code := 0
+	if ee, ok := err.(*exec.ExitError); ok {
+		code = ee.ExitCode()
+	} else if err != nil {
+		core.Fatal("cannot run the SCHED part (%s): %v", bin, err)
+	}
+	if code != 0 && code != 1 {
+		tail := string(out)
+		if len(tail) > 3000 {
+			tail = tail[len(tail)-3000:]
+		}
+		core.Fatal("SCHED part failed with exit %d:\n%s", code, tail)
+	}
+	var ev struct {
+		Coverage map[string]interface{} `json:"coverage"`
+	}
+	if b, err := ioutil.ReadFile(filepath.Join(sub, "evidence", "C05.json")); err == nil {
+		json.Unmarshal(b, &ev)
+	}
+	cov["sched"] = ev.Coverage
+	for _, k := range []string{"states", "transitions", "traces_validated_against_impl", "evaluations"} {
+		a, ok1 := cov[k].(int)
+		b, ok2 := ev.Coverage[k].(float64)
+		if ok1 && ok2 {
+			cov[k] = a + int(b)
+		}
+	}
+	if ex, ok := ev.Coverage["exhaustive"].(bool); ok && !ex {
+		cov["sched_exhaustive"] = false
+	}
+	for _, l := range strings.Split(string(out), "\n") {
+		if strings.HasPrefix(l, "KNOWN-FINDING:") {
+			fmt.Println(l)
+		}
+	}
+	arts, _ := filepath.Glob(filepath.Join(sub, "replays", "C05", "*.json"))
+	for _, a := range arts {
+		b, err := ioutil.ReadFile(a)
+		if err != nil {
+			continue
+		}
+		var art struct {
+			Sig    map[string]string `json:"sig"`
+			Case   json.RawMessage   `json:"case"`
+			Detail string            `json:"detail"`
+		}
+		if json.Unmarshal(b, &art) != nil {
+			continue
+		}
+		if art.Sig == nil {
+			art.Sig = map[string]string{}
+		}
+		art.Sig["part"] = "sched"
+		run.Report(art.Sig, map[string]interface{}{"engine": "SCHED", "sched_case": art.Case}, art.Detail)
+	}
+	if code == 1 && len(arts) == 0 {
+		core.Fatal("SCHED part reported a violation but left no artefact")
+	}
+}
+
+// replaySched hands a SCHED artefact to the SCHED binary.
+func replaySched(run *core.Run) bool {
+	b, err := ioutil.ReadFile(run.ReplayPath)
+	if err != nil {
+		return false
+	}
+	var art struct {
+		Case struct {
+			Engine    string          `json:"engine"`
+			SchedCase json.RawMessage `json:"sched_case"`
+		} `json:"case"`
+		Sig    map[string]string `json:"sig"`
+		Detail string            `json:"detail"`
+	}
+	if json.Unmarshal(b, &art) != nil || art.Case.Engine != "SCHED" {
+		return false
+	}
+	tmp := filepath.Join(run.WorkDir(), "sched-replay.json")
+	nb, _ := json.Marshal(map[string]interface{}{"property": "C05", "engine": "SCHED", "sig": art.Sig, "case": art.Case.SchedCase, "detail": art.Detail})
+	ioutil.WriteFile(tmp, nb, 0644)
+	bin := "/verif/.work/c05sched/bin-for-c05"
+	if alt := filepath.Join(core.Root, ".work", "c05sched", "bin-for-c05"); fileExists(alt) {
+		bin = alt
+	}
+	cmd := exec.Command(bin, "replay", tmp)
+	cmd.Stdout, cmd.Stderr = os.Stdout, os.Stderr
+	err = cmd.Run()
+	if ee, ok := err.(*exec.ExitError); ok {
+		os.Exit(ee.ExitCode())
+	}
+	os.Exit(0)
+	return true
+}
+
+func fileExists(p string) bool { _, err := os.Stat(p); return err == nil }
